@@ -121,7 +121,13 @@ def check_pair(case, rec):
             import ghedesigner.search_routines as sr
 
             other = build.grid(f["nx"] + 1, f["ny"] + (1 if f["nx"] % 2 else 0), f["B"])
-            guarded(ob.calculate_excess, other, h, what=f"calculate_excess({mode}, previous candidate)")
+            try:
+                guarded(ob.calculate_excess, other, h, allow=(ValueError,), what=f"calculate_excess({mode}, previous candidate)")
+            except ValueError as e:
+                # the simulation itself rejects this load profile / horizon (e.g. a hybrid time axis with a repeated
+                # hour): both flow specifications must be rejected alike
+                out[mode] = "ValueError"
+                continue
             calls = []
             inner = sr.calc_g_func_for_multiple_lengths
 
@@ -131,7 +137,11 @@ def check_pair(case, rec):
 
             sr.calc_g_func_for_multiple_lengths = spy
             try:
-                exc = guarded(ob.calculate_excess, coords, h, what=f"calculate_excess({mode})")
+                try:
+                    exc = guarded(ob.calculate_excess, coords, h, allow=(ValueError,), what=f"calculate_excess({mode})")
+                except ValueError:
+                    out[mode] = "ValueError"
+                    continue
             finally:
                 sr.calc_g_func_for_multiple_lengths = inner
             exp_m = v / 1000.0 * float(m["fluid"].rho)
@@ -147,6 +157,13 @@ def check_pair(case, rec):
                              rb=float(ghe.bhe.calc_effective_borehole_resistance()), eft=[float(x) for x in ghe.hp_eft],
                              exc=float(exc), rho=float(m["fluid"].rho), nbh=int(ghe.nbh))
     a, b = out["BOREHOLE"], out["SYSTEM"]
+    if a == "ValueError" or b == "ValueError":
+        if a != b:
+            raise Violation(f"{case['cls']}: one flow specification is rejected with ValueError, the equivalent other one is not "
+                            f"(BOREHOLE: {'rejected' if a == 'ValueError' else 'ok'}, SYSTEM: {'rejected' if b == 'ValueError' else 'ok'})",
+                            sig={"kind": "rejected_one_mode_only", "cls": case["cls"]})
+        rec.cls("simulation_rejected(ValueError, both modes)")
+        return
     exp = v / 1000.0 * a["rho"]
     for tag, o in out.items():
         if abs(o["m"] - exp) > 1e-12 * exp:
